@@ -37,6 +37,7 @@ ItemsText(items, i) ==
 (* ---- conversions (XPath 4.1-4.4) ; argument must not be Bad -------------------------------- *)
 ToStr(F, v) == CASE v.t = "str"  -> v.v
                  [] v.t = "rtf"  -> ItemsText(v.v, 1)
+                 [] v.t = "fns"  -> ItemsText(v.v, 1)      \* exsl:node-set() of a value that is no node-set: the node-set holding the root of a fragment
                  [] v.t = "num"  -> NumToStr(v.v)
                  [] v.t = "bool" -> IF v.v THEN StrTrue ELSE StrFalse
                  [] v.t = "ns"   -> IF v.v = {} THEN <<>> ELSE StringValue(F, FirstInDocOrder(v.v))
@@ -45,8 +46,10 @@ ToNumX(F, v) == CASE v.t = "num"  -> v.v                \* may be Unm for string
                   [] v.t = "bool" -> IF v.v THEN One ELSE Zero
                   [] v.t = "ns"   -> StrToNum(ToStr(F, v))
                   [] v.t = "rtf"  -> StrToNum(ToStr(F, v))
+                  [] v.t = "fns"  -> StrToNum(ToStr(F, v))
 ToBool(v) == CASE v.t = "bool" -> v.v
                [] v.t = "rtf"  -> TRUE              \* a node-set holding the fragment's root node
+               [] v.t = "fns"  -> TRUE
                [] v.t = "num"  -> ~(IsNaN(v.v) \/ IsZero(v.v))
                [] v.t = "str"  -> Len(v.v) > 0
                [] v.t = "ns"   -> v.v # {}
@@ -60,7 +63,7 @@ RelNum(o, a, b) == CASE o = "="  -> NumEq(a, b)
                      [] o = ">=" -> NumLe(b, a)
 Compare(F, o, l, r) ==
   LET isEq == o \in {"=", "!="}
-      setLike(v) == v.t \in {"ns", "rtf"}          \* a fragment compares like a one-node node-set
+      setLike(v) == v.t \in {"ns", "rtf", "fns"}          \* a fragment compares like a one-node node-set
       other == IF setLike(l) THEN r ELSE l
       mode == IF setLike(l) /\ setLike(r) THEN (IF isEq THEN "str" ELSE "num")
               ELSE IF setLike(l) \/ setLike(r)
@@ -250,6 +253,24 @@ XsltFunctionNames == {<<108, 97, 115, 116>>,
    <<101, 108, 101, 109, 101, 110, 116, 45, 97, 118, 97, 105, 108, 97, 98, 108, 101>>,
    <<102, 117, 110, 99, 116, 105, 111, 110, 45, 97, 118, 97, 105, 108, 97, 98, 108, 101>>}
 
+(* math:constant(name, precision): "returns the specified constant to a set precision".  Whatever "precision" counts (decimals, digits,  *)
+(* characters), from 17 on every reading yields all the digits a double holds: the result is the double nearest the constant, and its    *)
+(* string is the shortest numeral that denotes it.  Only that string form is modelled: string(math:constant('PI', 17)).                  *)
+MathConstants == << [name |-> <<80,73>>, str |-> <<51,46,49,52,49,53,57,50,54,53,51,53,56,57,55,57,51>>],
+                   [name |-> <<69>>, str |-> <<50,46,55,49,56,50,56,49,56,50,56,52,53,57,48,52,53>>],
+                   [name |-> <<83,81,82,82,84,50>>, str |-> <<49,46,52,49,52,50,49,51,53,54,50,51,55,51,48,57,53,49>>],
+                   [name |-> <<76,78,50>>, str |-> <<48,46,54,57,51,49,52,55,49,56,48,53,53,57,57,52,53,51>>],
+                   [name |-> <<76,78,49,48>>, str |-> <<50,46,51,48,50,53,56,53,48,57,50,57,57,52,48,52,54>>],
+                   [name |-> <<76,79,71,50,69>>, str |-> <<49,46,52,52,50,54,57,53,48,52,48,56,56,56,57,54,51,52>>],
+                   [name |-> <<83,81,82,84,49,95,50>>, str |-> <<48,46,55,48,55,49,48,54,55,56,49,49,56,54,53,52,55,54>>] >>
+IsMathConstantCall(e) == /\ e.op = "xfn" /\ e.lib = "math" /\ e.name = "constant" /\ Len(e.args) = 2
+                         /\ e.args[1].op = "str" /\ e.args[2].op = "num" /\ IsFin(e.args[2].v) /\ ~e.args[2].v.neg /\ e.args[2].v.m >= 17 * Scale
+                         /\ e.args[2].v.m % Scale = 0
+                         /\ \E k \in 1..Len(MathConstants) : MathConstants[k].name = e.args[1].v
+MathConstantString(e) == MathConstants[CHOOSE k \in 1..Len(MathConstants) : MathConstants[k].name = e.args[1].v].str
+
+FnsSafe == {"string", "count", "boolean", "not", "number", "string-length", "normalize-space", "concat", "contains", "starts-with",
+            "substring", "substring-before", "substring-after", "translate", "floor", "ceiling", "round"}
 EvalFn(e, c) ==
   LET F == c.f
       name == e.name
@@ -259,11 +280,13 @@ EvalFn(e, c) ==
       nodeArg == IF nargs = 0 THEN ctxNode ELSE a[1]          \* optional node-set argument
       strArg(i) == ToStr(F, a[i])
   IN
-  IF AnyBad(a) THEN BadOf(a)
+  IF name = "string" /\ nargs = 1 /\ IsMathConstantCall(e.args[1]) THEN SV(MathConstantString(e.args[1]))
+  ELSE IF AnyBad(a) THEN BadOf(a)
+  ELSE IF (\E i \in 1..nargs : a[i].t = "fns") /\ name \notin FnsSafe THEN UnmV       \* only the conversions of such a node-set are modelled
   ELSE
   CASE name = "last"      -> NV(FromInt(c.size))
     [] name = "position"  -> NV(FromInt(c.pos))
-    [] name = "count"     -> IF a[1].t # "ns" THEN ErrV ELSE NV(FromInt(Cardinality(a[1].v)))
+    [] name = "count"     -> IF a[1].t = "fns" THEN NV(One) ELSE IF a[1].t # "ns" THEN ErrV ELSE NV(FromInt(Cardinality(a[1].v)))
     [] name = "local-name" -> IF nodeArg.t # "ns" THEN ErrV ELSE
                               SV(IF nodeArg.v = {} THEN <<>> ELSE LocalOf(F, FirstInDocOrder(nodeArg.v)))
     [] name = "namespace-uri" -> IF nodeArg.t # "ns" THEN ErrV ELSE
@@ -349,6 +372,12 @@ EvalXfn(e, c) ==
       name == e.name
   IN
   IF AnyBad(a) THEN BadOf(a)
+  ELSE IF e.lib = "exsl" /\ e.name = "node-set" THEN      \* EXSLT: a node-set is returned as it is; a fragment becomes the node-set holding its root; any
+       (IF nargs # 1 THEN ErrV                            \* other value "is converted to a string ... a node-set consisting of a single text node"
+        ELSE IF a[1].t \in {"ns", "fns"} THEN a[1]
+        ELSE IF a[1].t = "rtf" THEN [t |-> "fns", v |-> a[1].v]
+        ELSE [t |-> "fns", v |-> <<[k |-> "text", v |-> ToStr(F, a[1])]>>])
+  ELSE IF (\E i \in 1..nargs : a[i].t = "fns") /\ ~(e.lib = "exsl" /\ e.name = "object-type") THEN UnmV
   ELSE IF e.name = "evaluate" /\ e.lib \in {"dyn", "xalan"} THEN        \* EXSLT dyn:evaluate / xalan:evaluate: the string "is evaluated exactly as if it
        (IF nargs # 1 THEN (IF e.lib = "dyn" THEN UnmV ELSE ErrV)         \* had been literally included in place of the call".  c.dyn says which expression
         ELSE LET str == ToStr(F, a[1])                                   \* a string spells (XPathSyntax!Parse of its tokens, supplied by the binding)
@@ -377,7 +406,8 @@ EvalXfn(e, c) ==
                                        ELSE NS({x \in a[1].v : Before(first(a[2].v), x)})
                [] OTHER -> ErrV)
   ELSE IF lib = "math" THEN
-       (IF name = "abs" THEN (IF nargs # 1 THEN ErrV ELSE LET x == ToNumX(F, a[1]) IN NV(IF IsFin(x) \/ IsInf(x) THEN [x EXCEPT !.neg = FALSE] ELSE x))
+       (IF name = "constant" THEN (IF nargs # 2 THEN ErrV ELSE UnmV)      \* a number outside the modelled domain; see MathConstantString
+        ELSE IF name = "abs" THEN (IF nargs # 1 THEN ErrV ELSE LET x == ToNumX(F, a[1]) IN NV(IF IsFin(x) \/ IsInf(x) THEN [x EXCEPT !.neg = FALSE] ELSE x))
         ELSE IF nargs # 1 \/ ~isNs(1) THEN ErrV
         ELSE LET P == NodeNums(F, a[1].v)
                  nums == {p[2] : p \in P}
@@ -392,7 +422,7 @@ EvalXfn(e, c) ==
                        [] OTHER -> ErrV)
   ELSE IF lib = "exsl" THEN
        (IF name = "object-type" /\ nargs = 1
-        THEN SV(CASE a[1].t = "ns" -> StrNodeSet [] a[1].t = "str" -> StrString [] a[1].t = "num" -> StrNumber
+        THEN SV(CASE a[1].t \in {"ns", "fns"} -> StrNodeSet [] a[1].t = "str" -> StrString [] a[1].t = "num" -> StrNumber
                   [] a[1].t = "bool" -> StrBoolean [] OTHER -> StrRTF)
         ELSE ErrV)
   ELSE IF lib = "str" THEN
@@ -438,7 +468,7 @@ Eval(e, c) ==
               ELSE LET r == Eval(e.b, c) IN IF Bad(r) THEN r ELSE BV(ToBool(r))
          ELSE LET l == Eval(e.a, c)  r == Eval(e.b, c) IN
               IF Bad(l) \/ Bad(r) THEN BadOf(<<l, r>>)
-              ELSE IF e.o = "|" THEN (IF l.t = "ns" /\ r.t = "ns" THEN NS(l.v \cup r.v) ELSE ErrV)
+              ELSE IF e.o = "|" THEN (IF l.t = "fns" \/ r.t = "fns" THEN UnmV ELSE IF l.t = "ns" /\ r.t = "ns" THEN NS(l.v \cup r.v) ELSE ErrV)
               ELSE IF e.o \in {"=", "!=", "<", "<=", ">", ">="} THEN Compare(c.f, e.o, l, r)
               ELSE NV(Arith(e.o, ToNumX(c.f, l), ToNumX(c.f, r)))
     [] e.op = "path" ->
@@ -446,11 +476,13 @@ Eval(e, c) ==
                       ELSE IF e.start.op = "none" THEN NS({c.n})
                       ELSE Eval(e.start, c) IN
          IF Bad(start) THEN start
+         ELSE IF start.t = "fns" THEN UnmV
          ELSE IF start.t # "ns" THEN ErrV
          ELSE EvalSteps(start.v, e.steps, 1, c)
     [] e.op = "filter" ->
          LET b == Eval(e.e, c) IN
          IF Bad(b) THEN b
+         ELSE IF b.t = "fns" THEN UnmV
          ELSE IF b.t # "ns" THEN ErrV
          ELSE LET r == FilterNodes(DocOrderSeq(b.v), e.preds, c) IN
               IF r.bad = "err" THEN ErrV ELSE IF r.bad = "unm" THEN UnmV ELSE NS(Range(r.s))
